@@ -15,6 +15,8 @@
   * `loop_covers_via_certificate`: the same conclusion as `loop_covers`, obtained through the certificate
     (`loop_log_accepted` + `C05.checkOk_sound`): the two layers agree.
   * `loop_success`: when the loop stops because the buffer is empty, the paving consists of stored boxes only.
+  * `chain_covers`: any chain of interrupted / resumed runs, each stage with its own (fresh) policy and limit, loses no
+    solution (the model-level counterpart of `C18resume.chain_sound`).
 -/
 import IbexProofs.SearchLoop
 import IbexProofs.Props.C05
@@ -100,6 +102,33 @@ theorem loop_covers_via_certificate (Sol : Set (List ℝ)) (P : Policy) (root : 
     stored boxes only: nothing is pending -/
 theorem loop_success (P : Policy) (s : St) (h : step P s = none) : s.paving.boxes = s.stored := by
   simp [St.paving, step_none h]
+
+/-! ### interrupted and resumed searches (C18): any chain of runs with fresh components -/
+
+/-- a search interrupted any number of times: each stage continues from the buffer (pending boxes) and the stored boxes
+    left by the previous one, with its OWN policy (fresh contractor, bisector, buffer) and its own limit -/
+def chain (root : Box) (stages : List (Policy × Nat)) : St :=
+  stages.foldl (fun s pf => run pf.1 pf.2 s) (St.init root)
+
+/-- **No solution is lost across interruptions**: after any chain of interrupted / resumed runs, whatever the policies of
+    the stages are (each sound in the sense of `loop_covers`), every solution of the root is in the final paving. -/
+theorem chain_covers (Sol : Set (List ℝ)) (root : Box) (stages : List (Policy × Nat))
+    (hctc : ∀ pf ∈ stages, ∀ x p, Box.Mem p x → p ∈ Sol → Box.Mem p (pf.1.ctc x))
+    (hact : ∀ pf ∈ stages, ∀ o, Box.isEmpty o = false → actOk o (pf.1.act o) = true) :
+    ∀ p ∈ Sol, Box.Mem p root → ∃ b ∈ (chain root stages).paving.boxes, Box.Mem p b := by
+  have key : ∀ (stages : List (Policy × Nat)) (s : St),
+      (∀ pf ∈ stages, ∀ x p, Box.Mem p x → p ∈ Sol → Box.Mem p (pf.1.ctc x)) →
+      (∀ pf ∈ stages, ∀ o, Box.isEmpty o = false → actOk o (pf.1.act o) = true) →
+      Covers Sol root s → Covers Sol root (stages.foldl (fun s pf => run pf.1 pf.2 s) s) := by
+    intro stages
+    induction stages with
+    | nil => intro s _ _ h; exact h
+    | cons pf rest ih =>
+      intro s h1 h2 h
+      simp only [List.foldl_cons]
+      exact ih _ (fun q hq => h1 q (List.mem_cons_of_mem _ hq)) (fun q hq => h2 q (List.mem_cons_of_mem _ hq))
+        (run_inv (h1 pf List.mem_cons_self) (h2 pf List.mem_cons_self) pf.2 s h)
+  exact key stages _ hctc hact (init_covers root)
 
 /-! ### the hypotheses are satisfiable: a concrete run, evaluated by the kernel -/
 
